@@ -49,8 +49,24 @@ type memRecord struct {
 	IfMatch, IfNoneMatch     string
 }
 
-var exoticTags = []string{"abc", "W/\"x\"", "with \"quotes\"", "back\\slash", "ünï-cödé", "tab\there", "日本語", "", strings.Repeat("long", 80), "\xff\xfe", "a'b", "<&>", "%41", " lead and trail ", "\\\"", "new\nline"}
+var exoticTags = []string{"abc", "W/\"x\"", "with \"quotes\"", "back\\slash", "ünï-cödé", "tab\there", "日本語", "", strings.Repeat("long", 80), "\xff\xfe", "a'b", "<&>", "%41", " lead and trail ", "\\\"", "new\nline",
+	// tags that are quoted strings themselves (a backend that stores the wire form), or look like the wildcard
+	"\"v1\"", "\"\"", "\"a\\\"b\"", "*", "\"*\"", "W/\"\"", strings.Repeat("k", 127), strings.Repeat("k", 128), strings.Repeat("k", 129), "tag-gzip", "tag-br"}
 var exoticMimes = []string{"", "text/plain", "text/plain; charset=utf-8", "application/x-vsim+json", "a/b;x=\"q z\"", "TEXT/HTML", "application/octet-stream", "image/svg+xml"}
+
+// uniqueTag makes a per-version tag from an exotic base: the counter goes
+// inside the quotes of bases that are quoted strings themselves, in front of a
+// suffix that proxies like to add, behind everything else.
+func uniqueTag(base string, seq int) string {
+	switch {
+	case len(base) >= 2 && strings.HasPrefix(base, "\"") && strings.HasSuffix(base, "\""):
+		return fmt.Sprintf("%s#%d\"", base[:len(base)-1], seq)
+	case strings.HasSuffix(base, "-gzip") || strings.HasSuffix(base, "-br"):
+		i := strings.LastIndex(base, "-")
+		return fmt.Sprintf("%s#%d%s", base[:i], seq, base[i:])
+	}
+	return fmt.Sprintf("%s#%d", base, seq)
+}
 
 func exoticTime(r *rt.Rand) time.Time {
 	switch r.Intn(9) {
@@ -84,7 +100,7 @@ func (m *MemFS) meta(p string, data []byte) webdav.FileInfo {
 		// every stored version gets its own tag (a strong validator): an exotic
 		// base plus a version counter
 		m.tagSeq++
-		tag = fmt.Sprintf("%s#%d", tag, m.tagSeq)
+		tag = uniqueTag(tag, m.tagSeq)
 	}
 	size := int64(len(data))
 	if m.rng.Chance(0.08) && !m.Conditional {
@@ -333,7 +349,7 @@ func (m *MemFS) copyMove(op, name, dest string, noRec, noOw bool) (bool, error) 
 		n.info.Path = d + strings.TrimPrefix(q, p)
 		if m.UniqueTags && !n.info.IsDir {
 			m.tagSeq++
-			n.info.ETag = fmt.Sprintf("%s#%d", rt.Pick(m.rng, exoticTags), m.tagSeq)
+			n.info.ETag = uniqueTag(rt.Pick(m.rng, exoticTags), m.tagSeq)
 		}
 		m.nodes[n.info.Path] = &n
 	}
